@@ -8,7 +8,7 @@
 (***************************************************************************)
 EXTENDS A5Tree, TLC, Json
 
-CONSTANTS MaxLen, MaxTarget
+CONSTANTS MaxLen, MaxTarget, DeepTargets
 
 VARIABLES cells, target, phase
 vars == <<cells, target, phase>>
@@ -17,11 +17,14 @@ B(f) == [res |-> 0, face |-> f, seg |-> 0, s |-> <<>>]
 Qn(f, g) == [res |-> 1, face |-> f, seg |-> g, s |-> <<>>]
 Universe == {World, B(0), B(7), Qn(0, 0), Qn(0, 4), Qn(7, 3),
              [res |-> 2, face |-> 0, seg |-> 0, s |-> <<0>>], [res |-> 2, face |-> 7, seg |-> 3, s |-> <<3>>],
-             [res |-> 3, face |-> 7, seg |-> 3, s |-> <<3, 1>>], [res |-> 4, face |-> 11, seg |-> 2, s |-> <<2, 0, 3>>]}
+             [res |-> 3, face |-> 7, seg |-> 3, s |-> <<3, 1>>], [res |-> 4, face |-> 11, seg |-> 2, s |-> <<2, 0, 3>>],
+             \* the deep end of the range: the last curve position of a quintant at res 27 and 28, a res-29 cell
+             [res |-> 27, face |-> 5, seg |-> 1, s |-> [k \in 1..26 |-> 3]], [res |-> 28, face |-> 5, seg |-> 1, s |-> [k \in 1..27 |-> 3]],
+             [res |-> 29, face |-> 2, seg |-> 4, s |-> [k \in 1..28 |-> k % 4]]}
 
 Init == cells = <<>> /\ target = -1 /\ phase = "build"
 Add == phase = "build" /\ Len(cells) < MaxLen /\ \E x \in Universe : cells' = Append(cells, x) /\ UNCHANGED <<target, phase>>
-Call == phase = "build" /\ Len(cells) >= 1 /\ \E t \in -1..MaxTarget : target' = t /\ phase' = "called" /\ UNCHANGED cells
+Call == phase = "build" /\ Len(cells) >= 1 /\ \E t \in (-1..MaxTarget) \cup DeepTargets : target' = t /\ phase' = "called" /\ UNCHANGED cells
 Next == Add \/ Call
 Spec == Init /\ [][Next]_vars
 
@@ -69,12 +72,14 @@ BlocksAbs(k, out) ==
           /\ Cardinality({out[i] : i \in 1..n}) = n
           /\ BlocksAbs(k + 1, SubSeq(out, n + 1, Len(out)))
 
+\* calls whose honest result exceeds 4^8 cells are outside the property (and outside 32-bit counting)
+Feasible == \A k \in 1..Len(cells) : cells[k].res > target \/ NumDesc(cells[k].res, target)[2] <= 6
 ImplMeetsSpec ==
-  phase = "called" =>
+  (phase = "called" /\ (Finer \/ Feasible)) =>
     LET r == Impl IN
       IF Finer THEN ~r.ok /\ r.out = <<>>
       ELSE r.ok /\ BlocksAbs(1, r.out) /\ Len(r.out) = PreCount
 
-Dump == phase = "called" =>
+Dump == (phase = "called" /\ Feasible) =>
           PrintT("REPLAY " \o ToJson([kind |-> "uncompact", cells |-> cells, target |-> target]))
 =============================================================================
